@@ -274,8 +274,8 @@ url_roundtrip = Unit(
     cuts=[Cut('isanyof', HCPP, r'^inline bool isanyof\(char c, const char\* chars\)\s*$'), Cut('hexNibble', HCPP, r'^inline char hexNibble\(int x\)\s*$'),
           Cut('enc', HCPP, r'^String Url::encode\(const String& q0_, bool component\)\s*$',
               rules=[(r'#ifdef ASL_ANSI\s*String q0 = localToUtf8\(q0_\);\s*#else\s*const String& q0 = q0_;\s*#endif', '', 1), (r'String q\(q0\.length\(\), 0\);', 'g_outlen = 0;', 1),
-                     (r'q0\.length\(\)', 'in_len', None), (r'\*\(byte\*\)&q0\[i\]', '(byte)in_txt[i]', 1),
-                     (r"q << '%' << hexNibble\(c >> 4\) << hexNibble\(c & 0x0f\);", "{ OUT('%'); OUT(hexNibble(c >> 4)); OUT(hexNibble(c & 0x0f)); }", 1), (r'q << \(char\)c;', 'OUT((char)c);', 1),
+                     (r'q0\.length\(\)', 'in_len', None), (r'\*\(byte\*\)&q0\[i\]', '(byte)in_txt[i]', None), (r'(?<![\w.>])q0\[', 'in_txt[', None),
+                     (r"q << '%' << hexNibble\(c >> 4\) << hexNibble\(c & 0x0f\);", "{ OUT('%'); OUT(hexNibble(c >> 4)); OUT(hexNibble(c & 0x0f)); }", None), (r'q << \(char\)c;', 'OUT((char)c);', None), (r'q << c;', 'OUT(c);', None),
                      (r'return q;', 'return;', 1)]),
           Cut('dec', HCPP, r'^String Url::decode\(const String& q0\)\s*$',
               rules=[(r'\bString q;', 'g_declen = 0;', 1), (r'q0\.length\(\)', 'g_outlen', None), (r'(?<![\w.>])q0\[', 'g_out[', None),
